@@ -128,8 +128,8 @@ type ClientSpec struct {
 	Sends       []ClientMsg `json:"sends,omitempty"`
 	PongDelayMs []int       `json:"pong,omitempty"` // per ping (cyclic); <0: never answer
 	V3PingMs    int         `json:"v3ping,omitempty"`
-	StopAtMs    int         `json:"stopAt,omitempty"`  // >0: complete silence from then on (partition)
-	CloseAtMs   int         `json:"closeAt,omitempty"` // >0: orderly client close (close packet / close frame)
+	StopAtMs    int         `json:"stopAt,omitempty"`     // >0: complete silence from then on (partition)
+	CloseAtMs   int         `json:"closeAt,omitempty"`    // >0: orderly client close (close packet / close frame)
 	CloseTrail  int         `json:"closeTrail,omitempty"` // polling: that many message packets follow the close packet in the same payload
 	Faults      []FaultSpec `json:"faults,omitempty"`
 	AcceptEnc   string      `json:"ae,omitempty"`
@@ -144,9 +144,9 @@ type ClientSpec struct {
 	Cand        []CandOp    `json:"cand,omitempty"` // non-conformant upgrade candidate script (C08)
 	CandAtMs    int         `json:"candAt,omitempty"`
 	CandKind    string      `json:"candKind,omitempty"`
-	NoCL        bool        `json:"nocl,omitempty"` // data requests without Content-Length (chunked transfer)
+	NoCL        bool        `json:"nocl,omitempty"`           // data requests without Content-Length (chunked transfer)
 	AbortHS     bool        `json:"abortHandshake,omitempty"` // the client gives up while its handshake request is being served
-	Retry       bool        `json:"retry,omitempty"` // after a failed candidate, try a conformant upgrade later
+	Retry       bool        `json:"retry,omitempty"`          // after a failed candidate, try a conformant upgrade later
 	RetryAtMs   int         `json:"retryAt,omitempty"`
 }
 
@@ -155,7 +155,7 @@ type ClientMsg struct {
 	ID     string `json:"id"`
 	Size   int    `json:"size"`
 	Binary bool   `json:"bin,omitempty"`
-	Text   string `json:"text,omitempty"` // explicit payload (overrides ID/Size padding)
+	Text   string `json:"text,omitempty"`  // explicit payload (overrides ID/Size padding)
 	Chars  string `json:"chars,omitempty"` // padding character class (payloadForC)
 }
 
